@@ -154,7 +154,8 @@ DCollectEnd(t) ==
 \* ---- do_collect_seq ----
 DSeqBegin(t) ==
   /\ Carry(t) = None /\ collectToken
-  /\ (collQ # {} \/ unfinished # None)
+  \* a partly filled block is closed without further input only at end of input
+  /\ (collQ # {} \/ (eof /\ unfinished # None))
   /\ (workUnits > 0 \/ unfinished # None)
   /\ (unfinished = None => collQ # {})           \* assert(iblk != NULL)
   /\ LET fresh == unfinished = None
